@@ -32,6 +32,7 @@ func validName(n string) bool {
 }
 
 type execRec struct {
+	From  string   `json:"from"`
 	Argv0 string   `json:"argv0"`
 	Args  []string `json:"args"`
 	Cwd   string   `json:"cwd"`
@@ -277,6 +278,46 @@ func main() {
 			}
 		}
 
+		// ------------------------------------------------ histories: the program started must not depend on earlier starts
+		c.Part("start-histories")
+		c.Bound("in one process, bare plugin names differing only in case and a PATH change between starts: each start must run exactly PATH/age-plugin-NAME for the name and PATH in force")
+		if c.Shard == 0 {
+			alt := filepath.Join(dir, "bin2")
+			os.MkdirAll(alt, 0o755)
+			// wrapper scripts that tell the log which file was started
+			script := func(d, n string) {
+				p := filepath.Join(d, "age-plugin-"+n)
+				os.Remove(p)
+				os.WriteFile(p, []byte("#!/bin/sh\nVERIF_FROM='"+p+"' exec '"+sim+"' \"$@\"\n"), 0o755)
+			}
+			for _, n := range []string{"Agent", "agent", "AGENT", "aGent"} {
+				script(pathDir, n)
+			}
+			script(alt, "agent")
+			type st struct{ name, path string }
+			for hi, h := range [][]st{{{"Agent", pathDir}, {"agent", pathDir}, {"AGENT", pathDir}, {"Agent", pathDir}}, {{"agent", pathDir}, {"agent", alt}, {"agent", pathDir}}, {{"aGent", pathDir}, {"agent", alt}}} {
+				for si, s := range h {
+					os.Setenv("PATH", s.path+":/bin:/usr/bin")
+					os.Remove(execlog)
+					c.Eval(1)
+					c.DistinctOnce(ev.HashStr("hist", fmt.Sprint(hi, si)))
+					i, err := plugin.NewIdentityWithoutData(s.name, &plugin.ClientUI{})
+					if err != nil {
+						c.Fail("valid-plugin-name-rejected/NewIdentityWithoutData", fmt.Sprintf("hist%d.%d", hi, si), err.Error(), nil)
+						continue
+					}
+					func() { defer func() { recover() }(); i.Unwrap([]*age.Stanza{{Type: "x"}}) }()
+					recs := readLog(execlog)
+					want := filepath.Join(s.path, "age-plugin-"+s.name)
+					if len(recs) != 1 || recs[0].From != want {
+						c.Fail("wrong-executable-started/history", fmt.Sprintf("hist%d.%d", hi, si), fmt.Sprintf("step %d of history %d: expected %s to be started, log: %+v", si, hi, want, recs), nil)
+					}
+				}
+			}
+			os.Setenv("PATH", pathDir)
+			c.Sample(map[string]interface{}{"history": "-j Agent, then -j agent, then -j AGENT in one process"})
+		}
+
 		// ------------------------------------------------ stanza types naming installed plugins
 		c.Part("stanza-types-do-not-start-plugins")
 		c.Bound("files whose headers carry stanzas typed like installed plugins (a, yubikey, se+tpm_2.0-x, age-plugin-a, ../x) next to a native stanza, decrypted with native identities through the library and the CLI")
@@ -305,6 +346,17 @@ func main() {
 					c.Eval(1)
 					if err != nil || string(out) != "data" || len(readLog(execlog)) != 0 {
 						c.Fail("plugin-started-by-stanza-type", fmt.Sprintf("cli.%d", i), fmt.Sprintf("CLI decrypt: err=%v out=%q started=%v", err, out, readLog(execlog)), nil)
+					}
+					// with an identity that does not match: the refusal must not start anything either
+					kf2 := filepath.Join(work, "k2.txt")
+					os.WriteFile(kf2, []byte(strings.ToUpper(refage.Bech32Encode("AGE-SECRET-KEY-", keys.X(5).XSecret))+"\n"), 0o600)
+					os.Remove(execlog)
+					cmd = exec.Command(ageBin, "-d", "-i", kf2, fn)
+					cmd.Dir = work
+					_, err = cmd.Output()
+					c.Eval(1)
+					if err == nil || len(readLog(execlog)) != 0 {
+						c.Fail("plugin-started-by-stanza-type", fmt.Sprintf("cli.nomatch.%d", i), fmt.Sprintf("CLI decrypt with a non-matching identity: err=%v started=%v", err, readLog(execlog)), nil)
 					}
 				}
 			}
